@@ -15,7 +15,11 @@ pub enum Ctx {
     /// inside the destructor of a thread-local value registered AFTER the thread's first call
     TlsDtorRegisteredLast,
 }
-pub const ALL: [Ctx; 3] = [Ctx::UnwindingDrop, Ctx::TlsDtorRegisteredFirst, Ctx::TlsDtorRegisteredLast];
+/// the contexts the checks use. `TlsDtorRegisteredFirst` is deliberately NOT among them: there the
+/// callee's own thread-local values have already been destroyed, and std documents that
+/// `LocalKey::with` may panic then — a library that keeps a per-thread buffer the ordinary way
+/// would be reported although it satisfies its properties (see DESIGN.md §6, domain decisions).
+pub const ALL: [Ctx; 2] = [Ctx::UnwindingDrop, Ctx::TlsDtorRegisteredLast];
 
 struct RunOnDrop(Option<Box<dyn FnOnce() + Send>>);
 impl Drop for RunOnDrop {
